@@ -187,6 +187,17 @@ func Draw(t *rapid.T, mode Mode, pkg string) Result {
 		}
 		g.msgs = append(g.msgs, p)
 	}
+	// a top-level declaration spelled like a nested one's flattened name: Foo_Bar
+	// next to Foo.Bar (legal proto, if unusual)
+	if mode == Arbitrary && rapid.IntRange(0, 9).Draw(t, "flatname") == 0 {
+		for _, q := range g.msgs {
+			if q.parent >= 0 && g.msgs[q.parent].parent == -1 {
+				g.msgs = append(g.msgs, &msgPlan{name: g.msgs[q.parent].name + "_" + q.name, parent: -1, index: len(g.msgs), clientNm: map[string]bool{}, shape: "object"})
+				g.cls("top-level-named-like-nested")
+				break
+			}
+		}
+	}
 	// the same two trailing name components under different outer messages:
 	// A.Filter.Range and B.Filter.Range are different types
 	var tops []int
